@@ -69,12 +69,13 @@ theorem static_eq_dynamic_mem (loc : Locator) (modname other : Str) (m : Module)
 
 /-- non-vacuity: module docstring, decorated async function, class with static method, property
     with setter, nested class, definitions inside an executed `try` body, an imported name, a main
-    guard that is not executed, with an `else` branch that is. -/
+    guard that is not executed, with an `else` branch that is; `f` is wrapped by a decorator imported from the
+    other module. -/
 def demoModule : Module :=
   { doc := some ⟨"m".toList, 1, 1⟩,
     body :=
       .imp "join".toList <|
-      .func true "f".toList [.other] (some ⟨"d".toList, 3, 3⟩) (.func false "inner".toList [] none .done .done) <|
+      .func true "f".toList [.ext "ext_deco".toList] (some ⟨"d".toList, 3, 3⟩) (.func false "inner".toList [] none .done .done) <|
       .cls "C".toList [] (some ⟨"c".toList, 5, 5⟩)
         (.func false "s".toList [.name "staticmethod".toList] (some ⟨"sd".toList, 7, 7⟩) .done <|
          .func false "p".toList [.name "property".toList] (some ⟨"g".toList, 9, 9⟩) .done <|
@@ -90,6 +91,11 @@ example : InFragment "mod".toList "posixpath".toList demoModule := by decide
 example : dynamicCollect (execModule "mod".toList "posixpath".toList demoModule) =
     [("__doc__".toList, some "m".toList), ("f".toList, some "d".toList), ("C".toList, some "c".toList),
      ("C.s".toList, some "sd".toList), ("C.p".toList, some "g".toList), ("g".toList, none), ("onimport".toList, some "o".toList)] := by decide
+
+/-- a function wrapped by a `functools.wraps` decorator imported from another module: its `__globals__` name the
+    OTHER module, its `__module__` this one — `is_defined_by_module` accepts it on `__module__` alone -/
+example : (funcItem "mod".toList "helper".toList [.ext "ext_deco".toList] none).target.globalsName = some "helper".toList ∧
+    definedBy "mod".toList (funcItem "mod".toList "helper".toList [.ext "ext_deco".toList] none).target = true := by decide
 
 /-- outside the fragment the two collectors really differ: a definition in a branch the import
     does not execute is seen by the static collector only -/
